@@ -103,9 +103,23 @@ def gen_host(rng):
         # number sign, care-of sign ...): inside or after a label
         i = rng.randrange(1, len(out) + 1)
         out = out[:i] + rng.choice(FOLD_TO_DELIMITER) + out[i:]
+    if rng.random() < 0.06:
+        # characters that compatibility normalisation turns into one, two or three full stops (one dot leader, small full
+        # stop, two dot leader, ellipsis) and the ideographic / fullwidth / halfwidth stops: in front of the first label,
+        # after the last one, or inside the name - a label separator born during host mapping
+        c = rng.choice(FOLD_TO_DOT)
+        where = rng.choice(['front', 'front', 'back', 'inside'])
+        if where == 'front':
+            out = c + out
+        elif where == 'back':
+            out = out + c
+        else:
+            i = rng.randrange(1, len(out) + 1)
+            out = out[:i] + c + out[i:]
     return out
 
 
+FOLD_TO_DOT = ['\u2024', '\ufe52', '\u2024', '\ufe52', '\u2025', '\u2026', '\uff0e', '\u3002', '\uff61']
 FOLD_TO_DELIMITER = ['\uff0f', '\uff1f', '\uff03', '\u2105', '\u2047', '\ufe56', '\ufe5f', '\u2100', '\u2048', '\uff20', '\uff1a',
                      '\uff3b', '\uff3c', '\uff05']
 INTERIOR_CHARS = [chr(i) for i in range(0x20)] + ['\x1c', '\x1d', '\x1e', '\x1f', '\x7f', '\x85', '\xa0', '\u1680', '\u2028',
@@ -150,7 +164,7 @@ def gen_structured(rng):
 
 
 SOUP = list('abcXYZ019.:/?#@[]%\\ +&=-_~') + ['%2e', '%2F', '%aF', 'é', '。', '．',
-                                                  '0x', '::', '//', '..', 'ß', '０']
+                                                  '0x', '::', '//', '..', 'ß', '０', '\u2024', '\ufe52']
 
 
 def gen_soup(rng):
